@@ -4,7 +4,7 @@
 P=$1
 cd /verif
 next=1
-while [ -d seeded/$P-$next ]; do next=$((next+1)); done
+while [ -d seeded/$P-$next ] || [ -d seeded/retired/$P-$next ]; do next=$((next+1)); done
 for i in 1 2 3; do
   [ -f /tmp/wt/$P-out/patch$i.diff ] || { echo "$P r-$i: no patch"; continue; }
   res=$(./tools/confirm_mutant.sh $P $i 2>&1 | tail -1)
@@ -18,6 +18,7 @@ m=json.load(open(f)); m['round']=3; json.dump(m,open(f,'w'),indent=1)
 PY
     echo "  stored as $P-$next"
     next=$((next+1))
+    while [ -d seeded/$P-$next ] || [ -d seeded/retired/$P-$next ]; do next=$((next+1)); done
   fi
 done
 git -C /repo worktree remove --force /tmp/wt/$P 2>/dev/null
